@@ -233,6 +233,30 @@ def atom_c19(rng):
     return "[%s]" % rng.choice(G.RC_POOL + G.HINT_POOL + G.FC_POOL + G.RC_EDGE + G.FC_EDGE)
 
 
+def check_deep_tree(ctx, case):
+    """the tree of a long expression (case: {"operands", "op"}): the nested marshmallow schemata recurse with the depth of the tree"""
+    ctx.set_case("deep-tree", case)
+    chain = case["op"].join("[%d]" % (i % 400 + 1) for i in range(case["operands"]))
+    parsed = capture(parse_condition_expression_to_tree, chain)
+    if parsed[0] != "ok":
+        ctx.violation(f"parse-raises-{type(parsed[1]).__name__}", f"a chain of {case['operands']} operands {describe(parsed)[:200]}")
+        return
+    ctx.evaluation()
+    ctx.count("deep_tree_round_trips")
+    schema = TreeSchema()
+    dumped = capture(schema.dumps, parsed[1])
+    loaded = capture(schema.loads, dumped[1]) if dumped[0] == "ok" else None
+    for step, out in (("dumps", dumped), ("loads", loaded)):
+        if out is not None and out[0] != "ok":
+            kind = "deep-tree-round-trip-raises-RecursionError" if isinstance(out[1], RecursionError) else f"{step[:4]}-raises-{type(out[1]).__name__}"
+            ctx.violation(kind, f"TreeSchema().{step} of the parse tree of a well-formed expression with {case['operands']} operands in one run (joined by {case['op']!r}) raised {type(out[1]).__name__}; the parsers return this tree and the evaluation handles it")
+            return
+    if loaded[1] != parsed[1] or canon(loaded[1]) != canon(parsed[1]):
+        ctx.violation("round-trip-not-equal", f"TreeSchema: the tree of a chain of {case['operands']} operands came back different")
+        return
+    ctx.nontrivial(["deep-tree", case["operands"], case["op"]])
+
+
 def define_foreign_schemas():
     """the application has marshmallow schemas of its own whose class names coincide with ahbicht's (an OAuth TokenSchema, a TreeSchema for
     a category tree, ...): marshmallow keeps ONE process-wide registry of schema classes by name"""
@@ -252,6 +276,9 @@ async def run(ctx):
     E.install()
     pools = G.Pools(rc=["1", "2", "3", "4"], hint=["501", "502"], fc=["901", "902", "903"])
     ctx.note("foreign_schemas", "after the first 50 cases the process defines marshmallow schema classes of its own with the same class names as ahbicht's")
+    if ctx.shard == 0:
+        for operands in (30, 45, 60, 110) if ctx.quick else (30, 45, 52, 56, 60, 80, 110, 150, 200):
+            check_deep_tree(ctx, {"operands": operands, "op": rng.choice(["U", "O", "X", " "])})
     for i in range(ctx.budget(1200, 60_000)):
         if i == 50 and not _FOREIGN:
             _FOREIGN.extend(define_foreign_schemas())
@@ -295,7 +322,9 @@ async def replay(ctx, phase, case):
     E.install()
     if not _FOREIGN:
         _FOREIGN.extend(define_foreign_schemas())  # the state the workload is in for all but its first 50 cases
-    if phase == "tree":
+    if phase == "deep-tree":
+        check_deep_tree(ctx, case)
+    elif phase == "tree":
         await check_tree(ctx, case)
     elif phase == "extract":
         await check_extract(ctx, case["s"], case["resolve"], case["replace"])
